@@ -37,6 +37,7 @@ func (bla *BucketLeapArray) NewEmptyBucket() interface{} {
 }
 
 func (bla *BucketLeapArray) ResetBucketTo(bw *BucketWrap, startTime uint64) *BucketWrap {
+	util.VerifYield("bla.reset.start")
 	atomic.StoreUint64(&bw.BucketStart, startTime)
 	mb := bw.Value.Load().(*MetricBucket)
 	mb.reset()
@@ -157,6 +158,7 @@ func (bla *BucketLeapArray) CountWithTime(now uint64, event base.MetricEvent) in
 			logging.Error(errors.New("fail to type assert"), "Bucket data type error in BucketLeapArray.CountWithTime()", "expectType", "*MetricBucket", "actualType", reflect.TypeOf(mb).Name())
 			continue
 		}
+		util.VerifYield("bla.count.get")
 		count += b.Get(event)
 	}
 	return count
